@@ -2,6 +2,7 @@
 mod flw;
 mod handler;
 mod obs;
+mod route;
 
 use serde_json::Value;
 use std::io::{BufRead, BufWriter, Write};
@@ -86,6 +87,8 @@ fn main() {
             }
             println!("flw scenarios={scs} events={events}");
         }
+        "route" => route::run(&args),
+        "route-child" => route::run_child(&args),
         x => {
             eprintln!("unknown subcommand {x}");
             std::process::exit(2);
